@@ -301,9 +301,9 @@ def op_str(op, args):
         return f"set{args[0]}={args[1]}"
     if op in ("SetRaw", "SetChunked"):
         v = "".join(str(x) for x in args[0])
-        return ("chunked" if op == "SetChunked" else "setraw" + (ALGO_OF[args[1]] if args[1] else "")) + f"({v})"
+        return ("chunked" if op == "SetChunked" else "setraw" + (f"[{ALGO_OF[args[1]]}-name]" if args[1] else "")) + f"({v})"
     if op == "Reload":
-        return "reload" + (ALGO_OF[args[0]] if args[0] else "")
+        return "reload" + (f"[{ALGO_OF[args[0]]}-name]" if args[0] else "")
     if op == "ReadIdF":
         return f"get_id({ALGO_OF[args[0]]})"
     return {"AsRaw": "raw", "ReadId": "id", "Copy": "copy", "Check": "check"}[op]
@@ -417,7 +417,7 @@ def minimise(conc, origin, v0, ops, clause, flavour, ofmt=0):
 
 
 def scenario(origin, ofmt, v0, ops):
-    return f"{origin}{ALGO_OF[ofmt] if ofmt else ''}({''.join(str(x) for x in v0)});" + ";".join(op_str(o, a) for (o, a) in ops)
+    return f"{origin}{'[' + ALGO_OF[ofmt] + '-name]' if ofmt else ''}({''.join(str(x) for x in v0)});" + ";".join(op_str(o, a) for (o, a) in ops)
 
 
 def replay_one(job, table, pools):
